@@ -305,7 +305,7 @@ def g_variants(tier):
     if tier == 'quick':
         Ls, als = (1, 2, 4), (1e-8, 1e-2, 1.0)
     else:
-        Ls, als = (1, 2, 3, 4, 8, 16), (1e-10, 1e-6, 1e-4, 1e-2, 1e-1, 1.0)
+        Ls, als = (1, 2, 3, 4, 8, 16), (1e-10, 1e-2, 1.0)
     for L in Ls:
         for a in als:
             for l in range(L):
@@ -590,6 +590,12 @@ def eval_iteration(case):
         res['classes']['constructor_raised' + (':singular_factor_predicted' if singular else ':UNPREDICTED')] += 1
         res['sample'] = dict(base, outcome=f'constructor raised {type(e).__name__}')
         return res
+    if singular:
+        # the oracle's preconditioner is singular: there is no reference step to compare with (clause A judges the factor)
+        res['evals'] += 1
+        res['classes']['constructed_although_singular_factor_predicted:not_judged'] += 1
+        res['sample'] = dict(base, outcome='constructed although the oracle predicts a singular factor')
+        return res
     P = ctrl.MS[0].levels[0].prob
     nodes = np.asarray(ctrl.MS[0].levels[0].sweep.coll.nodes, dtype=float)
     Q = O.lagrange_Q(nodes)
@@ -809,7 +815,7 @@ def run_cases(tier, r):
         Ls, Ms, als, maxiter = (1, 2, 3, 4), (1, 2, 3), (1e-8, 1e-3, 1e-1, 1.0), 40
     else:
         probs = probs + ['heat7d']
-        Ls, Ms, als, maxiter = tuple(range(1, 9)), (1, 2, 3, 4, 5), (1e-10, 1e-8, 1e-6, 1e-4, 1e-3, 1e-2, 1e-1, 0.3, 1.0), 90
+        Ls, Ms, als, maxiter = tuple(range(1, 9)), (1, 2, 3, 5), (1e-10, 1e-6, 1e-4, 1e-2, 1e-1, 0.3, 1.0), 90
     out = []
     u0 = c2l(r.sample(VALUE_POOL, 8))
     u0r = c2l(r.sample(REAL_POOL, 8))
@@ -831,7 +837,7 @@ def iteration_cases(tier, r):
     if tier == 'quick':
         Ls, Ms, als = (1, 2, 3, 4), (1, 2, 3), (1e-8, 1e-2, 1.0)
     else:
-        Ls, Ms, als = (1, 2, 3, 4, 5, 6, 8), (1, 2, 3, 5), (1e-10, 1e-6, 1e-3, 1e-1, 1.0)
+        Ls, Ms, als = (1, 2, 3, 4, 8), (1, 2, 3, 5), (1e-10, 1e-4, 1e-1, 1.0)
     vals = c2l(r.sample(VALUE_POOL, len(VALUE_POOL)))
     out = []
     for pk in probs:
